@@ -190,7 +190,8 @@ def commit_kwargs(i):
     msgs = ["méssage %d \n" % i, "", "é combining %d" % i, " lead %d\t" % i]
     return dict(message=msgs[i % 4], rev_id=rid(i), timestamp=1000000000 + 1000 * i + (0.5 if i % 7 == 3 else 0),
                 timezone=3600 * (i % 5 - 2), committer="Cömmitter %d <c@e>" % i,
-                revprops=({"pröp": "väl %d " % i} if i % 3 == 0 else None), allow_pointless=True)
+                revprops=({"branch-nick": "nïck", "pröp": "väl %d " % i} if i % 3 == 0 else {"branch-nick": "nïck"}),
+                allow_pointless=True)
 
 
 def apply_changes(wt, path, u, i):
@@ -238,6 +239,24 @@ def _has(wt, file_id):
         return False
 
 
+def sig_text(i):
+    return b"-----BEGIN PSEUDO-SIGNED CONTENT-----\nr%d \xc3\xa9\n-----END PSEUDO-SIGNED CONTENT-----\n" % i
+
+
+def sign(repo, i):
+    """every fourth revision of a source carries a signature"""
+    if i % 4 != 1:
+        return
+    with repo.lock_write():
+        repo.start_write_group()
+        try:
+            repo.add_signature_text(rid(i), sig_text(i))
+        except BaseException:
+            repo.abort_write_group()
+            raise
+        repo.commit_write_group()
+
+
 def _lh_len(g, x):
     n, k = len(g), 1
     while g[x] and g[x][0] < n:
@@ -273,6 +292,7 @@ def commit_revision(cd, path, u, i, cur):
         if pids:
             wt.set_parent_ids(pids, allow_leftmost_as_ghost=True)
         wt.commit(**commit_kwargs(i))
+    sign(cd.open_repository(), i)
     return i
 
 
@@ -316,6 +336,7 @@ def _build_big(u, fmt, path):
                     br.set_last_revision_info(_lh_len(g, ps[0]), pids[0])
         bb.build_snapshot(pids, acts, revision_id=rid(i), allow_leftmost_as_ghost=True,
                           timestamp=1000000000 + i, committer="c <c@e>", message="m %d" % i)
+        sign(br.repository, i)
 
 
 def source(u, fmt):
@@ -630,6 +651,29 @@ def _readable_problems(tpath, stacked, u, fmt, local_revs):
     return bad
 
 
+FACTS = ("testament_bad", "textparents_bad", "text_bad", "sig_bad", "check", "unreadable")
+
+
+def content_facts(tpath, stacked, u, tfmt, n, after, src_t, src_tp, src_sha, src_chk, committed=()):
+    so = {}
+    repo = open_repo(tpath, stacked)
+    local = [r for r in after[0] if r < n]
+    tt = testaments(repo, [rid(r) for r in local])
+    so["testament_bad"] = sorted(r for r in local if tt[r] != src_t.get(r))
+    tp = text_parents(repo, n)
+    so["textparents_bad"] = sorted(list(k) for k, v in tp.items() if k in src_tp and src_tp[k] != v)
+    sh = text_shas(repo, n)
+    so["text_bad"] = sorted(list(k) for k, v in sh.items() if k in src_sha and src_sha[k] != v)
+    with repo.lock_read():
+        sigs = {idx(k[0]): b"".join(repo.signatures.get_record_stream([k], "unordered", True).__next__().get_bytes_as("chunked"))
+                for k in repo.signatures.without_fallbacks().keys()}
+    so["sig_bad"] = sorted(r for r in local if r not in committed and sigs.get(r) != (sig_text(r) if r % 4 == 1 else None))
+    chk = check_problems(open_repo(tpath, stacked), set(u["late"]))
+    so["check"] = [it for it in chk if it not in src_chk]     # problems the source does not have itself
+    so["unreadable"] = _readable_problems(tpath, stacked, u, tfmt, local)
+    return so
+
+
 def run_case(case):
     """Execute the case on real repositories.  Returns {"model": observation the model predicts,
     "oracle": facts the property oracle needs}."""
@@ -665,11 +709,13 @@ def run_case(case):
         pre = repo_state(tpath, n, stacked)
         model = {"wf": True, "pre": pre, "steps": []}
         state = pre
+        committed = set()
         for op in case["ops"]:
             names_before = pack_names(tpath)
             out = Tag("ok")
             try:
                 if op[0] == "commit":
+                    committed.add(op[1])
                     _do_commit(case, tpath, op[1])
                 else:
                     _do_fetch(case, tpath, op[1], op[2], op[3])
@@ -686,17 +732,12 @@ def run_case(case):
             so = {"names_changed": pack_names(tpath) != names_before, "upload": upload_leftovers(tpath)}
             so["lost"] = [k for k in range(3) if not set(map(tuple, state[k]) if k == 2 else state[k])
                           <= set(map(tuple, after[k]) if k == 2 else after[k])]
-            repo = open_repo(tpath, stacked)
-            local = [r for r in after[0] if r < n]
-            tt = testaments(repo, [rid(r) for r in local])
-            so["testament_bad"] = sorted(r for r in local if tt[r] != src_t.get(r))
-            tp = text_parents(repo, n)
-            so["textparents_bad"] = sorted(list(k) for k, v in tp.items() if k in src_tp and src_tp[k] != v)
-            sh = text_shas(repo, n)
-            so["text_bad"] = sorted(list(k) for k, v in sh.items() if k in src_sha and src_sha[k] != v)
-            chk = check_problems(open_repo(tpath, stacked), set(u["late"]))
-            so["check"] = [it for it in chk if it not in src_chk]     # problems the source does not have itself
-            so["unreadable"] = _readable_problems(tpath, stacked, u, tfmt, local)
+            if orc["steps"] and after == state and not so["names_changed"]:
+                # nothing was written: the facts about the repository's content are those of the previous step
+                for k in FACTS:
+                    so[k] = orc["steps"][-1][k]
+            else:
+                so.update(content_facts(tpath, stacked, u, tfmt, n, after, src_t, src_tp, src_sha, src_chk, committed))
             orc["steps"].append(so)
             state = after
         return {"model": model, "oracle": orc}
@@ -719,8 +760,20 @@ def model_term(case):
 
 def revs_only(case):
     """knit target that may hold a fillable ghost: the delta-compression parents of the copied records
-    are copied too (C06's model, not this one); only the revision sets are compared"""
-    return case["tgt_fmt"] != "2a" and bool(case["u"]["late"])
+    are copied too (C06's model, not this one); only the revision sets are compared.  Also: see
+    stacked_merge_commits."""
+    return (case["tgt_fmt"] != "2a" and bool(case["u"]["late"])) or bool(stacked_merge_commits(case))
+
+
+def stacked_merge_commits(case):
+    """commits of a revision with two or more existing parents into a stacked repository: there
+    PackCommitBuilder._heads consults only the stacked repository's own text index, so the committed
+    revision is not the universe's (finding C08-stacked-merge-commit-heads); only revision sets are compared"""
+    g = case["u"]["g"]
+    n = len(g)
+    if not case.get("fb"):
+        return []
+    return [k for k, op in enumerate(case["ops"]) if op[0] == "commit" and len([p for p in g[op[1]] if p < n]) >= 2]
 
 
 def model_obs(case, obs):
